@@ -66,7 +66,7 @@ Section Inj.
   Proof.
     intros Q. destruct (raw_value_facts last v Q) as (Hne & _ & Hq & _).
     unfold tag_needs_quote, tag_needs_quote_v in Q.
-    apply orb_false_iff in Q as [Q _]. apply orb_false_iff in Q as [_ Q]. split; [exact Q|].
+    apply orb_false_iff in Q as [Q _]. apply orb_false_iff in Q as [Q _]. apply orb_false_iff in Q as [_ Q]. split; [exact Q|].
     destruct v as [|c v']; [congruence|]. exists c, v'. split; [reflexivity|].
     unfold starts_quoted in Hq. apply orb_false_iff in Hq as [Hq _]. exact Hq.
   Qed.
@@ -125,3 +125,39 @@ Section Inj.
     intros S1 S2 N1 N2. rewrite (line_print quote m1 S1), (line_print quote m2 S2). apply print_injective; assumption.
   Qed.
 End Inj.
+
+(* ---------- the line is one line: no line feed in it unless a name holds one ---------- *)
+Lemma has_app c a b : has c (a ++ b) = has c a || has c b.
+Proof. unfold has. apply existsb_app. Qed.
+
+Lemma join_no_lf rl : Forall (fun kr : bytes * bytes => has LF (fst kr) = false /\ has LF (snd kr) = false) rl ->
+  has LF (join_pairs rl) = false.
+Proof.
+  induction 1 as [|[k r] tl (Hk & Hr) Hall IH]; [reflexivity|]. cbn [fst snd] in *.
+  rewrite join_cons2, has_app, Hk. cbn [orb]. change (EQ :: r ++ ?x) with ([EQ] ++ r ++ x).
+  rewrite has_app, has_app, Hr. destruct tl; [reflexivity|].
+  change (COMMA :: ?x) with ([COMMA] ++ x). rewrite has_app, IH. reflexivity.
+Qed.
+
+Section SingleLine.
+  Variable quote : bytes -> bytes.
+  Hypothesis QN : QuoteNoLF quote.
+
+  Lemma render_no_lf m : forallb (fun kv => negb (has LF (fst kv))) m = true ->
+    Forall (fun kr : bytes * bytes => has LF (fst kr) = false /\ has LF (snd kr) = false) (render quote m).
+  Proof.
+    induction m as [|[k v] tl IH]; intros H; [constructor|].
+    cbn [forallb fst] in H. apply andb_true_iff in H as [Hk Htl]. apply negb_true_iff in Hk.
+    unfold render in *. cbn [render_v]. constructor; [|exact (IH Htl)]. cbn [fst snd]. split; [exact Hk|].
+    unfold tag_val_v. destruct (tag_needs_quote_v code_quote_edges code_quote_linebreak (is_nil tl) v) eqn:Q; [apply QN|].
+    unfold tag_needs_quote_v, code_quote_linebreak in Q. apply orb_false_iff in Q as [_ Q]. exact Q.
+  Qed.
+
+  (* the line() of the code, for a canonical set none of whose NAMES holds a line feed: a single line *)
+  Theorem line_single_line m : keys_sorted m = true -> forallb (fun kv => negb (has LF (fst kv))) m = true ->
+    has LF (line quote m) = false.
+  Proof.
+    intros Hs Hn. rewrite (line_print quote m Hs). change (print_tags quote m) with (join_pairs (render quote m)).
+    apply join_no_lf. exact (render_no_lf m Hn).
+  Qed.
+End SingleLine.
